@@ -14,17 +14,19 @@
 EXTENDS Steps, TLC, Json
 
 CONSTANT Focus        \* "fields": scalar fields against each other; "maps": the three mappings (insertion order, sub-maps, swapped values);
-                      \* "texts": content and tail over look-alike texts
+                      \* "texts": content and tail over look-alike texts; "prefixes": the prefix field against maps that bind two prefixes to one URI
 VARIABLES a, b
 NamesU   == IF Focus = "fields" THEN {"a", "x:a"} ELSE {"a"}
-PrefixU  == IF Focus = "fields" THEN {NOSTR, "x"} ELSE {NOSTR}
+PrefixU  == IF Focus = "fields" THEN {NOSTR, "x"} ELSE IF Focus = "prefixes" THEN {NOSTR, "x", "y"} ELSE {NOSTR}
 TextU    == IF Focus = "fields" THEN {0, 1, 2} ELSE IF Focus = "texts" THEN 0..6 ELSE {0}
             \* fields: None, a text, the empty string; texts: None, "", and five texts the harness realises as whitespace-only
             \* strings with and without line breaks and a visible text (equal atom <=> identical string, nothing else is equal)
-KvU      == IF Focus = "fields" THEN {<<>>, << <<"k1", 1>> >>} ELSE IF Focus = "texts" THEN {<<>>}
+KvU      == IF Focus = "fields" THEN {<<>>, << <<"k1", 1>> >>} ELSE IF Focus \in {"texts", "prefixes"} THEN {<<>>}
             ELSE {<<>>, << <<"k1", 1>> >>, << <<"k1", 1>>, <<"k2", 2>> >>, << <<"k2", 2>>, <<"k1", 1>> >>,      \* the same mapping filled in two orders
                   << <<"k1", 2>>, <<"k2", 1>> >>, << <<"k2", 2>> >>}                                         \* values swapped; a sub-map
 NsU      == IF Focus = "fields" THEN {{}, {<<"x", "u">>}} ELSE IF Focus = "texts" THEN {{}}
+            ELSE IF Focus = "prefixes" THEN {{}, {<<"x", "u">>}, {<<"x", "u">>, <<"y", "u">>}, {<<"x", "u">>, <<"y", "v">>},       \* two prefixes bound to ONE uri
+                                             {<<"~default", "u">>, <<"x", "u">>}}                                              \* ... or a prefix and the default namespace
             ELSE {{}, {<<"x", "u">>}, {<<"x", "u">>, <<"y", "v">>}, {<<"x", "v">>, <<"y", "u">>}, {<<"y", "v">>}}
 NodeRec  == [name : NamesU, prefix : PrefixU, content : TextU, tail : TextU, attrs : KvU, extras : KvU, ns : NsU]
 
